@@ -886,7 +886,8 @@ def add_index(dbfile, tablename, columns, verbose=False):
     Convenience function
     """
     conn = SqliteConnection(dbfile, isolation_level=None)
-    conn.add_index(tablename, columns, verbose=verbose)
+    conn.verbose = verbose
+    conn.add_index(tablename, columns)
     conn.close()
 
 
